@@ -685,9 +685,12 @@ __attribute__((no_sanitize("thread"))) static void atask_main(void* arg)
 			break;
 		}
 		case 2:
-			mtAtomicDecr(&atom_ctr);
+		{
+			size_t v = mtAtomicDecr(&atom_ctr);
+			incr_seen[a->id][nincr_seen[a->id]++] = v;
 			--a->net;
 			break;
+		}
 		case 3: /* CAS spin lock around a plain counter */
 			while (mtAtomicCmpSwap(&cas_lock, 0, (size_t)a->id + 1) != 0)
 				sk_yield(51, &cas_lock);
@@ -707,11 +710,12 @@ static void run_once(uint64_t seed)
 	sk_rng r;
 	sk_sched_cfg cfg;
 	unsigned t, i, nt;
-	int rc, only_incr;
+	int rc, only_incr, only_decr;
 	long net = 0, casn = 0;
 	sk_rng_seed(&r, seed);
 	nt = 2 + sk_below(&r, sk_options.tier ? 15 : 7);
 	only_incr = sk_chance(&r, 1, 3);
+	only_decr = !only_incr && sk_chance(&r, 1, 3);
 	for (t = 0; t < nt; ++t)
 	{
 		AT[t].id = (int)t, AT[t].n = 1 + sk_below(&r, 8), AT[t].net = 0;
@@ -720,6 +724,8 @@ static void run_once(uint64_t seed)
 			unsigned k = sk_below(&r, 4);
 			if (only_incr && k == 2)
 				k = 1;
+			if (only_decr && k == 1)
+				k = 2;
 			AT[t].kind[i] = (unsigned char)k;
 			if (k == 3 && sk_keep(MASK, t * 8 + i))
 				++casn;
@@ -806,20 +812,32 @@ static void run_once(uint64_t seed)
 		sk_violate(OUT, "atomic_cas", "CAS-protected counter is %ld, expected %ld", plain_protected, 2 * casn);
 		return;
 	}
-	if (only_incr)
+	if (only_incr || only_decr)
 	{
+		/* with one direction only, the values returned by the n operations must
+		   be exactly 1000 +- 1 .. 1000 +- n, each once (every return value is the
+		   new counter value) */
 		static size_t all[MAXT * 8];
 		unsigned n = 0, j;
 		for (t = 0; t < nt; ++t)
 			for (i = 0; i < nincr_seen[t]; ++i)
 				all[n++] = incr_seen[t][i];
 		for (i = 0; i < n; ++i)
+		{
+			size_t lo = only_incr ? 1001 : 1000 - n, hi = only_incr ? 1000 + n : 999;
+			if (all[i] < lo || all[i] > hi)
+			{
+				sk_violate(OUT, "atomic_counter", "an atomic %s returned %lu, outside %lu..%lu", only_incr ? "increment" : "decrement",
+					(unsigned long)all[i], (unsigned long)lo, (unsigned long)hi);
+				return;
+			}
 			for (j = i + 1; j < n; ++j)
 				if (all[i] == all[j])
 				{
-					sk_violate(OUT, "atomic_counter", "two increments returned the same value %lu", (unsigned long)all[i]);
+					sk_violate(OUT, "atomic_counter", "two atomic %ss returned the same value %lu", only_incr ? "increment" : "decrement", (unsigned long)all[i]);
 					return;
 				}
+		}
 	}
 	if (tsan_reports)
 	{
